@@ -160,7 +160,8 @@ func c07Gen(t *rapid.T) C07Case {
 			}
 		}
 		// A label holding a unix timestamp in most records and something else in the others.
-		rec.Labels["ts"] = rapid.SampledFrom([]string{"1700000001", "1700000002", "oops", "17", "1700000003"}).Draw(t, "tsval")
+		rec.Labels["ts"] = rapid.SampledFrom([]string{"1700000001", "1700000002", "oops", "17", "1700000003",
+			"1700000001999", "1700000001999999", "1700000001999999999", "19675", "170000000", "+170000001", "-1700000001"}).Draw(t, "tsval")
 		line := rapid.SampledFrom([]string{"GET /a 200", "", "some words here", "  spaced  ", "{{not a template}}", "percent %s %d"}).Draw(t, "line")
 		if kind == "decolorize" {
 			// A coloured line assembled from plain chunks and SGR sequences.
